@@ -184,13 +184,17 @@ func buildUniverse(t *kernel.Tape) (u *universe) {
 		if t.Chance(1, 2, "prof-access") {
 			p.access = &access.ProfileConfig{}
 			if t.Chance(1, 2, "acc-blocknet") {
-				p.access.BlockedNets = []netip.Prefix{profBlockedNet}
+				// (Now and then written with an address inside the network
+				// rather than its first one, as the backend may send it.)
+				p.access.BlockedNets = []netip.Prefix{kernel.Pick(t, []netip.Prefix{
+					profBlockedNet, profBlockedNet, netip.MustParsePrefix("198.51.100.77/24"),
+				}, "blocked-net")}
 			}
 			if t.Chance(1, 2, "acc-allownet") {
 				// The upper half of the blocked network, or a narrow network
 				// that begins where the blocked one begins.
 				p.access.AllowedNets = []netip.Prefix{kernel.Pick(t, []netip.Prefix{
-					profAllowedNet, netip.MustParsePrefix("198.51.100.0/28"),
+					profAllowedNet, netip.MustParsePrefix("198.51.100.0/28"), netip.MustParsePrefix("198.51.100.201/25"),
 				}, "allowed-net")}
 			}
 			if t.Chance(1, 2, "acc-blockasn") {
@@ -812,12 +816,19 @@ func run(s *kernel.Sim, prop, cfg string) {
 		if t.Chance(1, 8, "backend-change") {
 			// The backend changes and the database synchronises: a profile is
 			// deleted or restored, a device leaves or rejoins its profile or
-			// gets other authentication settings.
-			switch t.Choose(3, "change-kind") {
+			// gets other authentication settings or moves to another profile.
+			switch t.Choose(4, "change-kind") {
 			case 0:
 				p := kernel.Pick(t, u.profs, "changed-profile")
 				p.deleted = !p.deleted
 				s.Logf("backend: %s deleted=%v", p.id, p.deleted)
+			case 3:
+				// A device moves to another profile, human-readable name and
+				// addresses included.
+				d := kernel.Pick(t, u.devs, "changed-device")
+				d.prof = kernel.Pick(t, u.profs, "new-profile")
+				s.Logf("backend: %s moved to %s", d.id, d.prof.id)
+				s.Probe("device-moved")
 			case 1:
 				d := kernel.Pick(t, u.devs, "changed-device")
 				d.attached = !d.attached
